@@ -479,9 +479,31 @@ var seqNameRe = regexp.MustCompile(`(?i)(tsn|ssn|sequencenumber|messageidentifie
 
 // isSeqTyped reports whether an SSA value denotes a protocol sequence number (by the names of the fields,
 // parameters, locals and accessor methods it is derived from).
+// curNames maps SSA values of the function being scanned to the source names bound to them (from DebugRefs).
+var curNames map[ssa.Value][]string
+
+func debugNames(f *ssa.Function) map[ssa.Value][]string {
+	m := map[ssa.Value][]string{}
+	for _, b := range f.Blocks {
+		for _, in := range b.Instrs {
+			if dr, ok := in.(*ssa.DebugRef); ok && !dr.IsAddr && dr.Object() != nil {
+				if _, isVar := dr.Object().(*types.Var); isVar {
+					m[dr.X] = append(m[dr.X], dr.Object().Name())
+				}
+			}
+		}
+	}
+	return m
+}
+
 func isSeqTyped(v ssa.Value, depth int) bool {
 	if depth > 6 {
 		return false
+	}
+	for _, n := range curNames[v] {
+		if seqNameRe.MatchString(n) {
+			return true
+		}
 	}
 	switch t := v.(type) {
 	case *ssa.Parameter:
@@ -646,6 +668,8 @@ func seqSites(p *Program) []string {
 		}
 		var scan func(f *ssa.Function)
 		scan = func(f *ssa.Function) {
+			curNames = debugNames(f)
+			defer func() { curNames = nil }()
 			for _, b := range f.Blocks {
 				for _, in := range b.Instrs {
 					t, ok := in.(*ssa.BinOp)
@@ -675,6 +699,7 @@ func seqSites(p *Program) []string {
 			}
 			for _, af := range f.AnonFuncs {
 				scan(af)
+				curNames = debugNames(f)
 			}
 		}
 		scan(fn)
